@@ -75,7 +75,7 @@ def runInvs (fs : FS) : List String → List String
   | [] => []
   | a :: rest =>
     let inv := parseArgs (if a == "-" then [] else a.splitOn " ") ()
-    let (out, w) := push inv.cfg { fs := fs }
+    let (out, w) := Args.pushInv inv { fs := fs }
     -- the patch reported as failing ("Patch <name> FAILED"): the first one of the range that did not apply
     let failed : String := match out, plan inv.cfg fs with
       | .notAll, .apply range =>
@@ -94,12 +94,14 @@ def fieldOf (r name : String) : String :=
 
 /-- C10 on the implementation: a `--dry-run` invocation leaves every path, byte, mode, inode and
 timestamp under the working directory as it was -/
-def c10 (invs impl : List String) : String :=
-  let dry := (invs.zip impl).filter (fun (a, _) => (a.splitOn " ").contains "--dry-run")
+def c10 (invs impl : List String) (realIo : List Bool) : String :=
+  let dry := ((invs.zip impl).zip realIo).filter (fun ((a, _), _) => (a.splitOn " ").contains "--dry-run")
   if dry.isEmpty then "na"
-  else if !dry.all (fun (_, r) => fieldOf r "same" == "1") then "FAIL:dry-run-changed-the-tree"
-  else if !dry.all (fun (_, r) => fieldOf r "exit" == fieldOf r "rexit") then "FAIL:exit-status-differs-from-real-run"
-  else if !dry.all (fun (_, r) => fieldOf r "failed" == fieldOf r "rfailed") then "FAIL:failing-patch-differs-from-real-run"
+  else if !dry.all (fun ((_, r), _) => fieldOf r "same" == "1") then "FAIL:dry-run-changed-the-tree"
+  else if !dry.all (fun ((_, r), _) => fieldOf r "exit" == fieldOf r "rexit") then "FAIL:exit-status-differs-from-real-run"
+  -- (a real run that stops with an output failure — something is in the way of a reject or backup file —
+  -- names no failing patch; a dry run writes nothing and cannot meet that failure: only the exit status is compared then)
+  else if !dry.all (fun ((_, r), io) => io || fieldOf r "failed" == fieldOf r "rfailed") then "FAIL:failing-patch-differs-from-real-run"
   else "ok"
 
 /-- C15 on the implementation: hard-linked twins keep content and mode -/
@@ -198,12 +200,22 @@ def specVerdict (fs0 : FS) (invs impl : List String) : String := Id.run do
   let mut fs := fs0
   for (a, r) in invs.zip impl do
     let inv := parseArgs (if a == "-" then [] else a.splitOn " ") ()
-    let sp := Spec.pushSpec inv.cfg fs
+    -- an option value the tool refuses: exit 1, nothing touched (before the quilt state is read, or —
+    -- unknown analysis, bad thread count — once it is known that there is something to apply)
+    let sp : Spec.SpecOut :=
+      if inv.bad then { exit := 1, fs }
+      else if inv.badLate && (match plan inv.cfg fs with | .apply _ => true | _ => false) then { exit := 1, fs }
+      else Spec.pushSpec inv.cfg fs
     let implTree := fieldOf r "tree"
     let known := knownClass fs a (fieldOf r "exit" == "1" && implTree == renderTree fs)
     if fieldOf r "exit" != toString sp.exit then
       return (match known with | some c => s!"KNOWN:{c}" | none => s!"FAIL:exit(spec={sp.exit})")
-    if implTree != renderTree sp.fs then
+    if sp.ioError then
+      -- an output failure in the last phase (rejects, backups, .pc): exit status 1 (checked above) and
+      -- nothing recorded as applied; how far that phase got is not specified
+      let appliedOf := fun (f : FS) => match f.readFile appliedKey with | .ok (b, _) => some b | .error _ => none
+      if appliedOf (parseTree implTree) != appliedOf fs then return "FAIL:recorded-despite-output-failure"
+    else if implTree != renderTree sp.fs then
       return (match known with | some c => s!"KNOWN:{c}" | none => s!"FAIL:tree spectree={renderTree sp.fs}")
     fs := parseTree implTree
   return "ok"
@@ -292,6 +304,18 @@ def c13 (fs0 : FS) (invs impl : List String) (specV : String) : String := Id.run
 def c19 (impl : List String) : String :=
   if impl.all (fun r => fieldOf r "outside" == "ok") then "ok" else "FAIL:touched-outside"
 
+/-- per invocation: does the specification of the REAL (not dry) run, started from the tree the
+implementation left after the previous invocation, end in an output failure of the last phase -/
+def realIoFlags (fs0 : FS) (invs impl : List String) : List Bool := Id.run do
+  let mut fs := fs0
+  let mut out : List Bool := []
+  for (a, r) in invs.zip impl do
+    let inv := parseArgs (if a == "-" then [] else a.splitOn " ") ()
+    let sp := if inv.bad then ({ exit := 1, fs } : Spec.SpecOut) else Spec.pushSpec { inv.cfg with dryRun := false } fs
+    out := out ++ [sp.ioError && !inv.bad]
+    fs := parseTree (fieldOf r "tree")
+  return out
+
 /-- C11 on the implementation: the tool exits with 0 or 1, never by a crash -/
 def c11 (impl : List String) : String :=
   if impl.all (fun r => fieldOf r "exit" == "0" || fieldOf r "exit" == "1") then "ok" else "FAIL:crash"
@@ -318,7 +342,15 @@ def step (fields : List String) : String :=
     -- a parallel run may re-save (new inode, same bytes) files of patches behind the failing one, which the
     -- single-threaded driver never loads: the set of new inodes is compared for single-threaded runs only
     let proj := fun (r : String) => if par then ";".intercalate ((dropSame r).splitOn ";" |>.filter (fun x => !x.startsWith "newino=")) else dropSame r
-    let eqs := (m.zip impl).map (fun (a, b) => proj a == proj b)
+    -- an invocation whose real run ends in an output failure: how far the last phase got is not
+    -- specified (the parallel driver writes backups before rejects, the sequential one after): only
+    -- the exit status is compared, and nothing behind it (the model continues from its own tree)
+    let ioFlags := realIoFlags (parseTree tree) invs impl
+    let firstIo := (ioFlags.zipIdx.find? (fun (b, _) => b)).map (·.2)
+    let eqs := ((m.zip impl).zipIdx).map (fun ((a, b), i) =>
+      match firstIo with
+      | some j => if i < j then proj a == proj b else if i == j && !((invs.getD i "").splitOn " ").contains "--dry-run" then fieldOf a "exit" == fieldOf b "exit" else if i == j then proj a == proj b else true
+      | none => proj a == proj b)
     let firstBad := (eqs.zipIdx.find? (fun (e, _) => !e)).map (·.2)
     let ok := m.length == impl.length && eqs.all (fun b => b)
     -- C06: a parallel run (any forced schedule) must equal the single-threaded specification, provided all
@@ -327,7 +359,7 @@ def step (fields : List String) : String :=
     let c06 := if !par then "na" else if !(invs.all (rangeParses (parseTree tree))) then "na"
                else if specV.startsWith "KNOWN:" then specV
                else if specV != "ok" then "FAIL:differs-from-single-threaded:" ++ (specV.splitOn " ").headD "" else if !ok then "MODEL" else "ok"
-    s!"{cid} eq={boolS (ok || c06 == "na" && par)} firstbad={optNatS firstBad} C06={c06} SPEC={specV} ABS={absVerdict (parseTree tree) invs impl} C08S={c08Statement (parseTree tree) invs impl} C13={c13 (parseTree tree) invs impl specV} C10={c10 invs impl} C15={c15 impl} C19={c19 impl} C11={c11 impl} model={"|".intercalate m}"
+    s!"{cid} eq={boolS (ok || c06 == "na" && par)} firstbad={optNatS firstBad} C06={c06} SPEC={specV} ABS={absVerdict (parseTree tree) invs impl} C08S={c08Statement (parseTree tree) invs impl} C13={c13 (parseTree tree) invs impl specV} C10={c10 invs impl ioFlags} C15={c15 impl} C19={c19 impl} C11={c11 impl} model={"|".intercalate m}"
   | _ => "bad-line"
 
 /-- Engine `F` (C18): one invocation with the k-th file-system write failing.
